@@ -292,6 +292,32 @@ def _eagerly_noticed(sem, r):
     return True
 
 
+def late_stage_waits(sem):
+    """wait-optional members (anywhere in the program) that refer to a stage the engine never gives up by itself: the
+    crashed / closed / deploy_failed stage of a step that can never start (see _eagerly_noticed). The reference says such a
+    member is absent; the engine keeps waiting for it until the fallback detector ends the run."""
+    found = []
+
+    def visit(node, _path):
+        if isinstance(node, Opt) and node.wait:
+            for r in node_refs(node.node):
+                if not isinstance(r, Ref):
+                    continue
+                try:
+                    sem.eval_node(Ref(r.step, r.stage, r.output))
+                except R.Unavail as u:
+                    if u.kind == R.IMPOSSIBLE and not _eagerly_noticed(sem, r):
+                        found.append(r)
+                except (R.EvalFault, R.Unmodelled):
+                    pass
+    for s in sem.p.steps:
+        for f in s.fields.values():
+            walk_tree(f, visit)
+    for t in sem.p.outputs.values():
+        walk_tree(t, visit)
+    return found
+
+
 def classify_hang(sem):
     """Key describing why an idle hang is (or is not) the already-known 'late stage' finding."""
     late = set()
